@@ -5,8 +5,8 @@ CONSTANTS
  MaxTicket = 8
  MaxStale = 0
  MaxExh = 0
- MaxReins = 0
+ MaxReins = 2
  AllowRemove = FALSE
- Dev = {"pending_not_put_back"}
-INVARIANTS NoStreamLost
+ Dev = {}
+INVARIANTS TypeOK NoLostWakeup NoStreamLost ReadyHasSignal FairBoundTight LiveInHeap YieldBound
 CHECK_DEADLOCK FALSE
